@@ -50,7 +50,7 @@ func (f *Cond) Call(s *slip.Scope, args slip.List, depth int) (result slip.Objec
 			slip.TypePanic(s, depth, "clause", a, "list")
 		}
 		// A clause without forms returns the value of its test.
-		if result = slip.EvalArg(s, clause, 0, d2); result == nil {
+		if result = slip.EvalArgFirst(s, clause, 0, d2); result == nil {
 			continue
 		}
 		for i := 1; i < len(clause); i++ {
